@@ -69,8 +69,10 @@ Definition hidden_witness : chunked :=
                                     farr := {| offs := [0; 1; 2]; lvalid := [true; true];
                                                child := [VInt 1; VInt 7] |} |} ] |} ] |}.
 Theorem C03_hidden_refuted : exists p,
-  wf_b p = true /\ chunks p <> [] /\ m_list_lengths p <> Ok (spec_list_lengths (abs p)).
-Proof. exists hidden_witness. split; [reflexivity|]. split; [discriminate|]. vm_compute. discriminate. Qed.
+  wf_b p = true /\ chunks p <> [] /\
+  res_map diffs (m_list_offsets p) <> Ok (spec_offset_diffs (abs p)) /\
+  m_to_flat p (map fst (ctype p)) <> Ok (spec_offset_diffs (abs p), spec_flat (abs p)).
+Proof. exists hidden_witness. split; [reflexivity|]. split; [discriminate|]. split; vm_compute; discriminate. Qed.
 Print Assumptions C03_hidden_refuted.
 
 (* non-vacuity: a sliced, two-chunk column with a missing and an empty row meets every hypothesis *)
